@@ -506,26 +506,29 @@ theorem rootCom_eq (s : Sys ℝ) (q qd ctrl : List ℝ) (h : DynOK s q qd) :
     (by simp [hxl, h.links]) h.wf
 
 /-- **Model = Spec for every CoM-frame quantity, the bias force and the total smooth force**, for
-every `DynOK` system and state — composing C01's `forward_pos_eq_mj` (link poses), `cdof_eq_mj`
-(+ free), `cd_eq`, `cdofd_eq_sys`, `cinr_eq`, `rne_eq_mj`, `passive_eq`, `tau_eq`, `forward_eq`.
-The one link that is **not** proved is the per-tree centre of mass (`hcom`: `segment_sum` over the
-root index = `subtree_com[rootid]`), which is tied by both correspondence legs on every run;
-`hfree6` is the shape fact that a free link is a root with six dof rows. -/
+every `DynOK` system and state — composing C01's `forward_pos_eq_mj` (link poses), `rootCom_eq`,
+`cdof_eq_mj` (+ free), `cd_eq`, `cdofd_eq_sys`, `cinr_eq`, `rne_eq_mj`, `passive_eq`, `tau_eq`,
+`forward_eq`.  No hypothesis about the outputs is left: the generalized pipeline's `root_com`,
+`cdof`, `cd`, `cdofd`, `cinr`, Coriolis/centrifugal/gravity bias force and total smooth joint force
+are the reference engine's, for all forests, all joint stacks, all states and controls. -/
 theorem dynamics_eq_mj (s : Sys ℝ) (q qd ctrl : List ℝ) (h : DynOK s q qd)
-    (hcom : (dynInit s q qd).com.rootCom = (MjD.forwardData s q qd ctrl).rootCom)
-    (hfree6 : ∀ y ∈ s.parents.zip ((linkSlices s.types q qd s.dofs).zip (MjD.forwardData s q qd ctrl).cdof),
-      CdOK y.1 y.2.1 y.2.2)
     (hacts : ∀ a ∈ s.acts, a.qId < q.length ∧ a.qdId < qd.length ∧ a.qdId < s.nv) :
-    (dynInit s q qd).com.cdof = (MjD.forwardData s q qd ctrl).cdof
+    (dynInit s q qd).com.rootCom = (MjD.forwardData s q qd ctrl).rootCom
+    ∧ (dynInit s q qd).com.cdof = (MjD.forwardData s q qd ctrl).cdof
     ∧ (dynInit s q qd).com.cd = (MjD.forwardData s q qd ctrl).cvel
     ∧ (dynInit s q qd).com.cdofd = (MjD.forwardData s q qd ctrl).cdofDot
     ∧ List.Forall₂ SameInertia (dynInit s q qd).com.cinr (MjD.forwardData s q qd ctrl).cinert
     ∧ biasFlat s (dynInit s q qd) q qd = (MjD.forwardData s q qd ctrl).qfrcBias
     ∧ qfSmooth s (dynInit s q qd) q qd ctrl = (MjD.forwardData s q qd ctrl).qfrcSmooth := by
+  have hcom := rootCom_eq s q qd ctrl h
+  have hcom0 := hcom
   set x := (Kin.forward s q qd).map (·.1) with hxdef
   set ins := linkSlices s.types q qd s.dofs with hins
   set kin := scanFwd kinStep s.parents (s.links.zip ins) with hkin
   have hxpose : (MjD.forwardData s q qd ctrl).xpose = kin.map Prod.fst := rfl
+  have hfree6 : ∀ y ∈ s.parents.zip (ins.zip (MjD.forwardData s q qd ctrl).cdof), CdOK y.1 y.2.1 y.2.2 :=
+    cdOK_of_linkOK s.parents s.links ins kin (MjD.forwardData s q qd ctrl).rootCom s.types.length
+      h.links (linkSlices_length _ _ _ _) h.kin
   have hx : x = kin.map Prod.fst := by
     rw [← hxpose, xpose_eq_kinematics]
     exact C01.forward_pos_eq_mj s q qd h.kin
@@ -594,7 +597,7 @@ theorem dynamics_eq_mj (s : Sys ℝ) (q qd ctrl : List ℝ) (h : DynOK s q qd)
             (MjD.forwardData s q qd ctrl).cvel (MjD.forwardData s q qd ctrl).cdof
             (MjD.forwardData s q qd ctrl).cdofDot (ins.map (·.qd)) := rfl
     rw [h1, h2, rne_eq_mj s.parents s.gravity _ _ _ hcinr, hcd, hcdof, hcdofd]
-  exact ⟨hcdof, hcd, hcdofd, hcinr, hbias, forward_eq s _ q qd ctrl hbias hacts⟩
+  exact ⟨hcom0, hcdof, hcd, hcdofd, hcinr, hbias, forward_eq s _ q qd ctrl hbias hacts⟩
 
 /-! ## non-vacuity -/
 
@@ -653,6 +656,43 @@ example : PhysOK exPhys := by
     simp only [exPhys, List.mem_cons, List.mem_nil_iff, or_false] at hd
     subst hd
     norm_num
+
+/-- `DynOK` is satisfiable: C01's example system (free root, child on a hinge about z on a body
+rotated by (3/5, 4/5, 0, 0) and offset (1, 2, 3)) in its example state -/
+example : DynOK C01.exSys C01.exQ C01.exQd := by
+  refine ⟨rfl, rfl, ?_, ?_, ?_, ?_⟩
+  · intro i
+    match i with
+    | 0 => simp [C01.exSys]
+    | 1 => simp [C01.exSys]
+    | k + 2 => simp [C01.exSys]; omega
+  · intro i
+    match i with
+    | 0 => simp [C01.exSys]
+    | 1 => simp [C01.exSys]
+    | k + 2 => simp [C01.exSys]
+  · intro x hx
+    simp only [C01.exSys, C01.exQ, C01.exQd, C01.exFreeDofs, linkSlices, LinkType.qWidth, LinkType.qdWidth,
+      List.zip_cons_cons, List.zip_nil_right, List.mem_cons, List.mem_nil_iff, or_false,
+      List.take, List.drop, List.cons_append, List.nil_append] at hx
+    rcases hx with rfl | rfl
+    · refine ⟨Q4.isUnit_one, rfl, fun _ => ⟨by norm_num, rfl, rfl, rfl, 0, 0, 1, 0, 1, 0, 0, rfl, ?_⟩,
+        fun h => absurd rfl h⟩
+      norm_num [Q4.IsUnit, Q4.normSq]
+    · refine ⟨by norm_num [C01.exLink, Q4.IsUnit, Q4.normSq], rfl, fun h => by simp at h, fun _ => ⟨rfl, rfl, ?_⟩⟩
+      intro dq hdq
+      simp only [List.zip_cons_cons, List.zip_nil_right, List.mem_cons, List.mem_nil_iff, or_false] at hdq
+      subst hdq
+      left
+      refine ⟨rfl, ?_⟩
+      norm_num [C01.exDof, V3.dot]
+  · intro l hl hf
+    simp only [C01.exSys, C01.exQ, C01.exQd, C01.exFreeDofs, linkSlices, LinkType.qWidth, LinkType.qdWidth,
+      List.mem_cons, List.mem_nil_iff, or_false, List.take, List.drop, List.cons_append,
+      List.nil_append] at hl
+    rcases hl with rfl | rfl
+    · rfl
+    · simp at hf
 
 /-! ### the D2 configuration: a slide along body-z on a body rotated about y
 
